@@ -52,11 +52,21 @@ func setAllocCap(n int) {
 // runSkipper applies one skipping facility to input (value followed by trailing bytes).
 // probeNext asks for the byte that follows (only after success).
 func runSkipper(which string, input []byte, t int8, env EnvCfg, probeNext bool) (o skipOut) {
+	return runSkipperOpt(which, input, t, env, probeNext, true)
+}
+
+// runSkipperOpt: with reset=false the object pools and the buffer pool keep what the previous case left there
+// (a decoder returned to its pool after a failure must be as good as new).
+func runSkipperOpt(which string, input []byte, t int8, env EnvCfg, probeNext, reset bool) (o skipOut) {
 	o.ReadLen, o.SrcOut, o.NextByte = -1, -1, -1
+	if !reset {
+		goto run
+	}
 	// every case starts from empty object pools and an empty buffer pool (pooled ReaderSkipDecoders keep their
 	// scratch buffer, so the two must be reset together; pool reuse is exercised by the decoder histories and C14)
 	vsync.Reset()
 	mcache.VerifReset()
+run:
 	var er *EnvReader
 	pi := mc.Try(func() {
 		switch which {
